@@ -84,7 +84,7 @@ func stdioServerMain() {
 				pending = &mm
 				note("PENDING id=%s", m.ID)
 			}
-		case !probeDone && m.Method == sc.ProbeMethod && (m.Method == "tools/list" || m.Params.Name == "probe"):
+		case !probeDone && isProbe(&m, &sc):
 			id, pid := string(m.ID), "424242"
 			if pending != nil {
 				pid = string(pending.ID)
@@ -118,7 +118,7 @@ func stdioServerMain() {
 			answer(&m, m.Params.Name)
 		default:
 			name := m.Params.Name
-			if m.Method == "tools/list" {
+			if isListMethod(m.Method) {
 				name = "list"
 			}
 			answer(&m, name)
